@@ -1,6 +1,6 @@
 (** C15 - The JSON outputter turns any well-nested call sequence into matching,
     valid JSON.  Statements only; proofs are in OutputProofs.v. *)
-From Plenc Require Import Base Output OutputProofs.
+From Plenc Require Import Base Output OutputProofs JsonGrammar.
 Open Scope N_scope.
 
 (** for every call tree (any depth and width, empty containers, every
@@ -31,6 +31,27 @@ Theorem C15_reset : forall ops1 ops2 j,
   o_run j (ops1 ++ [OReset] ++ ops2) = o_run jout_init ops2.
 Proof. exact output_reset. Qed.
 Print Assumptions C15_reset.
+
+(** validity and content: what a new outputter writes for a call tree is a
+    document of the JSON grammar (values, arrays, objects, string literals,
+    white space, separators - JsonGrammar.v) and the derivation yields the call
+    tree back: names and strings through the string-literal automaton, containers
+    element for element.  [valid_tok]: the number / boolean / time tokens that
+    strconv and time print are JSON literals (their business, not the outputter's) *)
+Theorem C15_output_is_json : forall (valid_tok : bytes -> Prop) t, toks_ok valid_tok t ->
+  exists text, (do j <- o_run jout_init (ops_of t); o_done j) = Ok text /\ jdoc valid_tok text t.
+Proof. exact output_is_json. Qed.
+Print Assumptions C15_output_is_json.
+
+(** ... at every nesting depth: the text of a subtree is a JSON value denoting it *)
+Theorem C15_subtree_is_json : forall (valid_tok : bytes -> Prop) t d, toks_ok valid_tok t -> jvalue valid_tok (body d t) t.
+Proof. exact body_is_json. Qed.
+Print Assumptions C15_subtree_is_json.
+
+Example C15_json_ex :
+  let t := TObj [([97; 34], TArr [TScalar (STok [49]); TObj []; TArr []]); ([], TScalar (SStr [7; 255]))] in
+  toks_ok (fun b => b = [49]) t.
+Proof. cbv zeta. cbn [toks_ok fst snd]. repeat split; repeat constructor; lia. Qed.
 
 (** non-vacuity *)
 Example C15_ex :
